@@ -24,7 +24,7 @@ def _local_origin(fn, name, at):
 
 
 def ob_wig_summary(ctx, res):
-    fn = ctx.ast.fn(WW, "process_val")
+    fn = ctx.ast.fn(WW, "process_val", inline=True, keep=("encode_section",))
     gs = [g for g in S.summary_blocks(fn.body)]
     if len(gs) != 1:
         res.fail("wigSummary/sites", fn, "expected one summary update block, found %d" % len(gs))
@@ -45,9 +45,9 @@ def ob_wig_summary(ctx, res):
     if not ti or len(ti) != 1 or ti[0][0] != "+=" or up(strip(ti[0][1])) != "1":
         res.fail("wigSummary/items", g["nodes"][0], "total_items must be incremented by exactly one per value")
         return
-    bs = binding_before(fn, g["base"], g["nodes"][0])
-    if bs is None or bs[0] != "param":
-        res.fail("wigSummary/target", g["nodes"][0], "the summary updated must be the processor's summary parameter")
+    o_base = _local_origin(fn, g["base"], g["nodes"][0]) or ""
+    if not re.fullmatch(r"p\d+", o_base) or "Summary" not in fn.params[int(o_base[1:])][1]:
+        res.fail("wigSummary/target", g["nodes"][0], "the summary updated must be the processor's summary parameter; it is `%s` (origin %s)" % (g["base"], o_base))
         return
     res.ok(g["nodes"][0], "summary: items += 1; bases += len; min/max folded with val; sum += len*val; sumsq += len*val*val (len = end-start, val = value)")
     # seeds: Summary literals in the two create() fns; destroy() zeroes min/max only when nothing was seen
@@ -171,7 +171,7 @@ def ob_bed_zoom_stat(ctx, res):
 
 
 def ob_bed_summary(ctx, res):
-    fn = ctx.ast.fn(BW, "process_val")
+    fn = ctx.ast.fn(BW, "process_val", inline=True, keep=("encode_section",))
     gs = [g for g in S.summary_blocks(fn.body) if g["base"] == "summary"]
     lits = S.summary_literals(fn.body)
     if len(gs) != 1 or len(lits) != 1:
